@@ -49,6 +49,7 @@ const (
 	findingLateChunk = "C14-late-chunk-from-rejected-sender"
 	findingProposer  = "C14-restored-proposer-heuristic"
 	findingParams    = "C14-consensus-params-of-other-height"
+	findingNonAdv    = "C14-chunk-from-non-advertiser"
 	// owned by the C09 (light client) harness; they surface here through the real light-client state provider
 	findingC09a = "C09-conflicting-witness-counts-as-match"
 	findingC09b = "C09-promoted-primary-stays-witness"
@@ -438,7 +439,9 @@ type driver struct {
 	peers        []string
 	chunksOf     map[string]uint32 // genuine chunk count per "height/format"
 	offeredKeys  map[string]int
-	knownLate    bool // tolerate the listed known finding
+	knownLate    bool                       // tolerate the listed known finding
+	everAdv      map[string]map[string]bool // snapshot key -> peers that ever sent an advertisement of it
+	nonAdvHit    bool
 	knownHit     bool
 	classes      map[string]bool
 	nonAccept    int
@@ -548,6 +551,10 @@ func (d *driver) drawSnapshot() (snapDesc, string) {
 }
 
 func (d *driver) addSnapshot(peer string, s snapDesc, kind string) {
+	if d.everAdv[s.key()] == nil {
+		d.everAdv[s.key()] = map[string]bool{}
+	}
+	d.everAdv[s.key()][peer] = true
 	want := d.pool.add(peer, s)
 	got, err := d.s.AddSnapshot(&peerDouble{id: p2p.ID(peer)}, s.real())
 	d.logf("AddSnapshot peer=%s %s (%s) -> %v %v", peer, s.key(), kind, got, err)
@@ -587,6 +594,11 @@ func (d *driver) addChunk(h uint64, f uint32, idx uint32, sender string, kind st
 		d.class("chunk-outcome:late-from-rejected-refused")
 		return false
 	}
+	if e := d.pool.snaps[q.desc.key()]; !got && !d.pool.rejPeer[sender] && (e == nil || !e.peers[sender]) {
+		// not from a peer that has the snapshot being restored: refusing it is always right (see below)
+		d.class("chunk-outcome:non-advertiser-refused")
+		return false
+	}
 	if mismatch {
 		if got || err == nil {
 			d.failf("AddChunk for another height/format or an index beyond the snapshot returned (%v, %v), want an error (current %s)", got, err, q.desc.key())
@@ -607,6 +619,27 @@ func (d *driver) addChunk(h uint64, f uint32, idx uint32, sender string, kind st
 		d.knownHit = true
 		d.lateRejected++
 		d.class("chunk-outcome:late-from-rejected-ACCEPTED(known)")
+	}
+	// Chunks are only ever requested from peers that advertise the snapshot being restored (spec: "Chunks may be
+	// retrieved from all nodes that have the same snapshot"). A chunk from a peer that NEVER advertised it is the late
+	// answer to a request made for an earlier, rejected snapshot of the same height and format (the wire message
+	// names height/format/index only) or unsolicited: it must not become part of this restoration. A former
+	// advertiser (vanished, over the per-peer limit) is unspecified: the model adopts the implementation's answer.
+	if e := d.pool.snaps[q.desc.key()]; !d.pool.rejPeer[sender] && (e == nil || !e.peers[sender]) {
+		if !got {
+			d.class("chunk-outcome:non-advertiser-refused")
+			return false
+		}
+		if !d.everAdv[q.desc.key()][sender] {
+			if !(lib.IsKnown(findingNonAdv) && q.stored[idx] == nil) {
+				d.failf("FINDING %s: a chunk from %s, which never advertised the snapshot being restored (%s), was accepted into its queue (index %d)%s",
+					findingNonAdv, sender, q.desc.key(), idx, d.otherAdverts(sender, q.desc))
+			}
+			d.nonAdvHit = true
+			d.class("chunk-outcome:non-advertiser-ACCEPTED(known)")
+		} else {
+			d.class("chunk-outcome:former-advertiser-accepted(unspecified)")
+		}
 	}
 	if q.stored[idx] != nil {
 		if got {
@@ -629,22 +662,37 @@ func (d *driver) addChunk(h uint64, f uint32, idx uint32, sender string, kind st
 	return true
 }
 
+// goodSender: a peer that currently advertises the snapshot being restored; if nobody does any more, a new peer
+// shows up with it first.
 func (d *driver) goodSender() string {
-	var ok []string
-	for _, p := range d.peers {
-		if !d.pool.rejPeer[p] {
-			ok = append(ok, p)
+	q := d.q
+	if e := d.pool.snaps[q.desc.key()]; e != nil && len(e.peers) > 0 {
+		return rapid.SampledFrom(keysOf(e.peers)).Draw(d.rt, "sender")
+	}
+	for i := 0; ; i++ {
+		if p := fmt.Sprintf("fresh%d", i); !d.pool.rejPeer[p] && d.pool.peerCount(p) < d.pool.limit {
+			d.addSnapshot(p, q.desc, "re-advertised")
+			return p
 		}
 	}
-	if len(ok) == 0 {
-		// a peer never seen before (and not rejected either)
-		for i := 0; ; i++ {
-			if p := fmt.Sprintf("fresh%d", i); !d.pool.rejPeer[p] {
-				return p
-			}
+}
+
+// otherAdverts describes what else the sender advertised at the same height and format (for failure messages).
+func (d *driver) otherAdverts(sender string, cur snapDesc) string {
+	var out []string
+	for k, ps := range d.everAdv {
+		if ps[sender] && strings.HasPrefix(k, fmt.Sprintf("%d/%d/", cur.Height, cur.Format)) && k != cur.key() {
+			out = append(out, k)
 		}
 	}
-	return rapid.SampledFrom(ok).Draw(d.rt, "sender")
+	sort.Strings(out)
+	if len(out) == 0 {
+		return ""
+	}
+	if d.pool.rejSnap[out[0]] {
+		return fmt.Sprintf("; it advertised %v (rejected earlier)", out)
+	}
+	return fmt.Sprintf("; it advertised %v", out)
 }
 
 // one drawn peer action. parked: index the restoring goroutine waits for (-1 none).
@@ -652,7 +700,7 @@ func (d *driver) peerAction(parked int64, allowChunks bool) {
 	t := d.rt
 	kinds := []string{"snapshot", "snapshot", "remove-peer", "flood"}
 	if allowChunks {
-		kinds = append(kinds, "chunk", "chunk", "chunk", "chunk", "chunk", "chunk", "chunk-wrong", "chunk-rejected-sender", "chunk-dup")
+		kinds = append(kinds, "chunk", "chunk", "chunk", "chunk", "chunk", "chunk", "chunk-wrong", "chunk-rejected-sender", "chunk-dup", "chunk-non-advertiser")
 	}
 	switch rapid.SampledFrom(kinds).Draw(t, "action") {
 	case "snapshot":
@@ -721,6 +769,33 @@ func (d *driver) peerAction(parked int64, allowChunks bool) {
 			idx = q.desc.Chunks + uint32(rapid.IntRange(1, 1000).Draw(t, "di"))
 		}
 		d.addChunk(h, f, idx, rapid.SampledFrom(d.peers).Draw(t, "sender"), "wrong-"+what)
+	case "chunk-non-advertiser":
+		q := d.q
+		if q == nil || !q.known {
+			return
+		}
+		// prefer peers that advertised another snapshot of the same height and format (late answers for that one)
+		var cands, same []string
+		for _, p := range append(append([]string(nil), d.peers...), "stranger") {
+			if d.pool.rejPeer[p] || d.everAdv[q.desc.key()][p] {
+				continue
+			}
+			cands = append(cands, p)
+			if d.otherAdverts(p, q.desc) != "" {
+				same = append(same, p)
+			}
+		}
+		if len(same) > 0 && rapid.Bool().Draw(t, "c.sameHF") {
+			cands = same
+		}
+		if len(cands) == 0 {
+			return
+		}
+		idx := uint32(rapid.IntRange(0, int(q.desc.Chunks)-1).Draw(t, "c.idx"))
+		if parked >= 0 && rapid.Bool().Draw(t, "c.want") {
+			idx = uint32(parked)
+		}
+		d.addChunk(q.desc.Height, q.desc.Format, idx, rapid.SampledFrom(cands).Draw(t, "nonadv"), "from-non-advertiser")
 	case "chunk-rejected-sender":
 		q := d.q
 		if q == nil || !q.known {
@@ -1021,6 +1096,15 @@ func (d *driver) onApply(ev *event) {
 		} else {
 			d.class("apply:new-arrival-after-refetch")
 		}
+	}
+	if d.pool.rejPeer[a.sender] {
+		// ABCI spec, reject_senders: "Any chunks already applied will not be refetched unless explicitly requested":
+		// RETRY / RETRY_SNAPSHOT without refetch_chunks re-apply what the app has already been given. Anything else
+		// of a rejected sender must never reach the app.
+		if prev, ok := q.lastApplied[nx]; (!ok || prev != a.seq) && !d.knownHit {
+			d.failf("index %d applied from arrival #%d of sender %s for the first time although the app had rejected that sender", nx, a.seq, a.sender)
+		}
+		d.class("apply:reapplied-chunk-of-rejected-sender(by spec)")
 	}
 	q.lastApplied[nx] = a.seq
 	q.applied[nx] = true
@@ -1363,7 +1447,7 @@ func runHistory(t *rapid.T, test string) {
 	s := statesync.VerifC14NewSyncer(config.StateSyncConfig{ChunkFetchers: 0, ChunkRequestTimeout: 10 * time.Second},
 		log.NewNopLogger(), proxy.NewAppConnSnapshot(cli), proxy.NewAppConnQuery(cli), &provDouble{r: r}, dir)
 	d := &driver{t: t, rt: t, test: test, c: c, r: r, s: s, dir: dir, pool: newPoolModel(), ph: phSelect,
-		chunksOf: map[string]uint32{}, offeredKeys: map[string]int{}, classes: map[string]bool{},
+		everAdv: map[string]map[string]bool{}, chunksOf: map[string]uint32{}, offeredKeys: map[string]int{}, classes: map[string]bool{},
 		knownLate: lib.IsKnown(findingLateChunk)}
 	if d.pool.limit != statesync.VerifC14RecentSnapshots {
 		t.Fatalf("recentSnapshots is %d, the model assumes 10", statesync.VerifC14RecentSnapshots)
@@ -1451,6 +1535,10 @@ func runHistory(t *rapid.T, test string) {
 	}
 	cls = append(cls, fmt.Sprintf("hist:offers=%s", bucket(d.offers)), fmt.Sprintf("hist:applies=%s", bucket(d.applies)))
 	lib.Case(test, lib.FP(d.fpParts...), nontrivial, cls...)
+	if d.nonAdvHit {
+		lib.ObservedKnown(findingNonAdv)
+		lib.ExcludedByKnown(findingNonAdv)
+	}
 	if d.knownHit {
 		lib.ObservedKnown(findingLateChunk)
 		lib.ExcludedByKnown(findingLateChunk)
